@@ -50,6 +50,17 @@ impl<K: Hash + Eq, V> MapStack<K, V> {
         self.iter_dict().filter_map(|dict| dict.get(key)).nth(0)
     }
 
+    /// Like `get`, but skips entries (in inner scopes) that do not satisfy `pred`.
+    pub(crate) fn get_where<Q>(&self, key: &Q, pred: impl Fn(&V) -> bool) -> Option<&V>
+    where
+        K: Borrow<Q>,
+        Q: Hash + Eq + ?Sized,
+    {
+        self.iter_dict()
+            .filter_map(|dict| dict.get(key))
+            .find(|v| pred(v))
+    }
+
     pub(crate) fn insert(&mut self, key: K, value: V) {
         let _ = self.stack.last_mut().unwrap().insert(key, value);
     }
